@@ -11,6 +11,31 @@ use swiftness_air::{domains::StarkDomains, layout::LayoutTrait};
 use swiftness_stark::{commit::stark_commit, queries::generate_queries, types::StarkProof};
 use swiftness_transcript::transcript::Transcript;
 
+/// Draw order of the interaction elements by name, as in the Cairo verifier's `InteractionElements`
+/// structs (which are filled by one `random_felts_to_prover` call, so declaration order = draw order)
+/// and Stone's `V->P: ... Interaction element #k` log.
+pub const INTERACTION_ORDER: [&str; 8] = [
+    "memory_multi_column_perm_perm_interaction_elm",
+    "memory_multi_column_perm_hash_interaction_elm0",
+    "range_check16_perm_interaction_elm",
+    "diluted_check_permutation_interaction_elm",
+    "diluted_check_interaction_z",
+    "diluted_check_interaction_alpha",
+    "add_mod_interaction_elm",
+    "mul_mod_interaction_elm",
+];
+
+/// interaction elements in draw order, by field name; None when the struct has other fields
+fn ordered_interaction<T: serde::Serialize>(ie: &T) -> Option<Vec<Felt>> {
+    let v = serde_json::to_value(ie).ok()?;
+    let m = v.as_object()?;
+    let mut out = Vec::new();
+    for k in INTERACTION_ORDER.iter().take(m.len()) {
+        out.push(Felt::from_hex(m.get(*k)?.as_str()?).ok()?);
+    }
+    Some(out)
+}
+
 /// interaction elements as a flat vector, through the serde image of the layout's struct (field order)
 fn flatten_interaction<T: serde::Serialize>(ie: &T) -> Vec<Felt> {
     let v = serde_json::to_value(ie).unwrap();
@@ -37,6 +62,7 @@ fn flatten_interaction<T: serde::Serialize>(ie: &T) -> Vec<Felt> {
 
 pub struct Derived {
     pub interaction: Vec<Felt>,
+    pub interaction_ordered: Option<Vec<Felt>>,
     pub oods_point: Felt,
     pub oods_alpha_pow1: Option<Felt>,
     pub fri_eval_points: Vec<Felt>,
@@ -52,6 +78,7 @@ pub fn derive(layout: &str, p: &StarkProof) -> Result<Derived, String> {
         let q = generate_queries(&mut t, p.config.n_queries, dom.eval_domain_size);
         Ok(Derived {
             interaction: flatten_interaction(&c.traces.interaction_elements),
+            interaction_ordered: ordered_interaction(&c.traces.interaction_elements),
             oods_point: c.interaction_after_composition,
             oods_alpha_pow1: c.interaction_after_oods.get(1).cloned(),
             fri_eval_points: c.fri.eval_points.clone(),
@@ -78,6 +105,16 @@ fn check_item(it: &Item, log: &stone::ProverLog) -> (Outcome, u64) {
     b.sort();
     if a != b {
         return (bad("interaction_elements"), n);
+    }
+    n += a.len() as u64;
+    // element #k of the prover's log is the k-th name of the draw order
+    match &d.interaction_ordered {
+        None => return (bad("interaction_element_names"), n),
+        Some(o) => {
+            if *o != log.interaction_elements {
+                return (bad("interaction_element_order"), n);
+            }
+        }
     }
     n += a.len() as u64;
     if Some(d.oods_point) != log.oods_point {
@@ -123,6 +160,33 @@ fn traces_phase(ctx: &Ctx, rep: &mut Report) {
                 })
             };
             let (o, i) = (prf_felt(seed, 1), prf_felt(seed, 2));
+            // draw order against the sponge model: element #k is the k-th squeeze after the original commitment
+            let ordered = guarded(false, || {
+                with_layout!(*l, L, {
+                    let mut t = Transcript::new(d0);
+                    let c = <L as LayoutTrait>::traces_commit(&mut t, &trace::UnsentCommitment { original: o, interaction: i }, cfg.clone());
+                    ordered_interaction(&c.interaction_elements)
+                })
+            });
+            if let Ok(got) = &ordered {
+                let mut m = crate::refmodel::transcript::RefTranscript::new(d0);
+                m.absorb_one(o);
+                let n_el = got.as_ref().map(|g| g.len()).unwrap_or(0);
+                let want: Vec<Felt> = (0..n_el).map(|_| m.squeeze()).collect();
+                if got.as_ref() != Some(&want) || n_el == 0 {
+                    let out = Outcome::failed(
+                        format!("phase/traces_commit_order/{}", l),
+                        fp(&(l, k, "order")),
+                        "c08:interaction_element_draw_order",
+                        format!("{}: interaction element named k-th in the draw order is not the k-th challenge squeezed after the original trace commitment", l),
+                    );
+                    rep.record(&out, || json!({"layout": l, "k": k}));
+                    if let Some(fl) = &out.fail {
+                        rep.fail(ctx, fl, || json!({"label":"c08t","case": {"phase": "traces_order", "layout": l, "k": k}}));
+                    }
+                    continue;
+                }
+            }
             let r = guarded(false, || (run(o, i), run(o + Felt::ONE, i), run(o, i + Felt::ONE)));
             let f = fp(&(l, k));
             let class = format!("phase/traces_commit/{}", l);
@@ -191,6 +255,17 @@ pub fn run(ctx: &Ctx, rep: &mut Report) {
     }
     rep.extra.insert("stone_challenges_compared".into(), json!(compared));
     rep.extra.insert("stone_proofs_compared".into(), json!(used));
+}
+
+/// replay of a traces_commit phase failure: the phase is re-run as a whole (it is cheap and its
+/// failures do not depend on the seed)
+pub fn replay_traces(ctx: &Ctx) -> Result<Outcome, String> {
+    let mut rep = Report::new();
+    traces_phase(ctx, &mut rep);
+    Ok(match rep.violations.first() {
+        Some(v) => Outcome::failed("phase/traces_commit", 0, v.signature.clone(), v.what.clone()),
+        None => Outcome::pass("phase/traces_commit", true, 0),
+    })
 }
 
 pub fn replay(ctx: &Ctx, v: &Value) -> Result<Outcome, String> {
